@@ -83,6 +83,9 @@ def execute(spec, count_lines=False):
         events = []
 
         def path_of(name, kind):
+            if kind in ("rel", "relPath"):
+                # relative to the current directory (the harness changes into the scratch directory for the call)
+                return pathlib.Path(name) if kind == "relPath" else name
             p = os.path.join(scratch, name)
             return pathlib.Path(p) if kind == "Path" else p
 
@@ -150,6 +153,9 @@ def execute(spec, count_lines=False):
                                     only_files="worklists/base.py") if (inj or count_lines) else None
             exc = None
             had = read(name)
+            cwd = os.getcwd()
+            if kind in ("rel", "relPath"):
+                os.chdir(scratch)
             try:
                 if injector:
                     with injector:
@@ -160,6 +166,8 @@ def execute(spec, count_lines=False):
                 if isinstance(e, (SystemExit, GeneratorExit)):
                     raise
                 exc = e
+            finally:
+                os.chdir(cwd)
             if injector:
                 res.save_lines[key] = injector.count
             recs = [str(r) for r in wl]
@@ -374,7 +382,7 @@ class Program:
                     name = rng.choice(GOOD_NAMES + [main, main])
                     if rng.random() < 0.3:
                         ops.append({"op": "prewrite", "file": name, "prestate": rng.choice(["empty", "shorter", "longer", "equalish", "torn"])})
-                    ops.append({"op": "save", "file": name, "path_kind": rng.choice(["str", "Path"])})
+                    ops.append({"op": "save", "file": name, "path_kind": rng.choice(["str", "Path", "str", "Path", "rel", "relPath"])})
                     r2 = rng.random()
                     if r2 < 0.3:
                         ops.append({"op": "clear"})
